@@ -310,8 +310,9 @@ def check_cache_coherence(ck, cm):
     loads = rr.some([c for c in rr.calls("load") if A.dotted(A.call_recv(c)) == "self.codec"], "self.codec.load call")
     for c in _field_calls(rr, "_memory_cache", "put"):
         hv = A.kwarg(c, "has_result") or (c.args[2] if len(c.args) > 2 else None)
-        okb = [A.norm(a) for a in c.args[:2]] == ["memento", "result"] and hv is not None and A.norm(hv) == "True" and "call:load" in rr.deps(c.args[1])
-        ck.ob(R, rr.key(c, "fill-with-loaded-value"), okb, "the value loaded from the store is what fills the cache" if okb else
+        okb = len(c.args) >= 2 and A.norm(c.args[0]) == "memento" and rr.xnorm(c.args[1], rr.nodes(c)[0]).startswith("self.codec.load(") \
+            and hv is not None and A.norm(hv) == "True" and "call:load" in rr.deps(c.args[1])
+        ck.ob(R, rr.key(None, "fill-with-loaded-value"), okb, "the value loaded from the store is what fills the cache" if okb else
               "read_result fills the cache with something else than (memento, <loaded value>, has_result=True)", rr.where(c))
     for c in loads:
         args = [A.norm(a) for a in c.args]
@@ -470,7 +471,9 @@ def check_listing_filters(ck, R):
     ls = FA(ck, FSDS + ".list_keys_nonversioned")
     for name, sub in ls.fi.nested.items():
         f = FA(ck, sub)
-        counts = [s_ for s_ in f.stmts(ast.AugAssign) if isinstance(s_.target, ast.Name) and s_.target.id == "count"]
+        # the counter is the local that is compared with `limit`
+        cmpd = {x.id for n_ in A.walk_body(sub.node) if isinstance(n_, ast.Compare) and "limit" in A.names_in(n_) for x in ast.walk(n_) if isinstance(x, ast.Name)} - {"limit"}
+        counts = [s_ for s_ in f.stmts(ast.AugAssign) if isinstance(s_.target, ast.Name) and s_.target.id in cmpd]
         if not counts:
             continue
         for flt in ("endswith", "file_prefix"):
@@ -481,12 +484,13 @@ def check_listing_filters(ck, R):
                   "min(n, live) entries when other files (custom metadata) share the directory" % (name, flt), f.where())
     rets = ls.returns()
     post = []
+    ent = {r.value.args[0].id for r in rets if isinstance(r.value, ast.Call) and A.call_attr(r.value) == "sorted" and r.value.args and isinstance(r.value.args[0], ast.Name)}
     for st in ls.stmts(ast.Assign):
-        if any(isinstance(t, ast.Name) and t.id == "entries" for t in st.targets):
+        if any(isinstance(t, ast.Name) and t.id in ent for t in st.targets):
             v = st.value
             if not (isinstance(v, ast.Call) and A.call_attr(v) == "list" and v.args and isinstance(v.args[0], ast.Call) and A.call_attr(v.args[0]) in ls.fi.nested):
                 post.append(st)
-    okp = not post and all(r.value is None or A.norm(r.value) == "[]" or (isinstance(r.value, ast.Call) and A.call_attr(r.value) == "sorted" and A.norm(r.value.args[0]) == "entries") for r in rets)
+    okp = not post and all(r.value is None or A.norm(r.value) == "[]" or (isinstance(r.value, ast.Call) and A.call_attr(r.value) == "sorted" and len(r.value.args) == 1 and A.norm(r.value.args[0]) in ent) for r in rets) and len(ent) == 1
     ck.ob(R, ls.key(None, "no-post-filter"), okp, "the walk result is only sorted" if okp else
           "the listing is narrowed after the walk (`%s`): the limit was already spent on entries that are filtered out afterwards" % A.short(post[0], 60) if post else
           "list_keys_nonversioned does not return sorted(entries)", ls.where(post[0] if post else None))
